@@ -1,6 +1,6 @@
 import GMGProofs.Lemmas.Concrete3
 /-!
-# `Cycle.ZeroData`, `Cycle.ExactData` (any depth) and `Cycle.ExExactData` (full-grid smoothing) for `Concrete.ops H`
+# `MGCycle.ZeroData`, `MGCycle.ExactData` (any depth) and `MGCycle.ExExactData` (full-grid smoothing) for `Concrete.ops H`
 * the zero array is a fixed point of the code-level sweep with the zero right-hand side (`sweep_fixed` with `take o 0 0 = 0`),
   its residual is the zero array, restriction / prolongation / addition of zero arrays give zero arrays, the coarse solve of
   the zero array is the zero array: `ZeroData` for the intermediate and the coarsest level;
@@ -10,7 +10,7 @@ import GMGProofs.Lemmas.Concrete3
 The per-level hypotheses are passed as a conjunction (`LevelHyp`) so that the property file can keep its own structure.
 -/
 namespace Concrete
-open Stencil Scalar Cycle
+open Stencil Scalar MGCycle
 
 section AnyField
 variable {K : Type} [_root_.Field K]
